@@ -49,7 +49,9 @@ def run(ctx: Ctx):
                 ds = [d for d in rdc.defs_of(e) if d.kind == "assign"]
                 if len(ds) != 1:
                     return u(e)
-                v = u(ds[0].value)
+                # the defining expression with copies / temporaries looked through, down to the slice columns
+                from sa.inline import Inliner as _InlRole
+                v = _InlRole(f.node, rdc, keep={d2.name for d2 in rdc.defs if d2.value is not None and "slices[..., " in u(d2.value)} | {"lens"}).text(e)
                 cols = {}
                 for d2 in rdc.defs:
                     if d2.kind in ("assign", "unpack") and d2.value is not None:
